@@ -307,6 +307,22 @@ def calcD2 (s : ESpace) (pt : Pos) : List Int := (rows s).map (edist2 s.cfg pt)
 def agentsInRadius (s : ESpace) (pt : Pos) (r : Int) : List (Aid × Int) :=
   (s.active.zip (calcD2 s pt)).filter (fun ad => decide (0 ≤ r) && ad.2 ≤ r * r)
 
+/-- numpy's documented post-condition of `argpartition(d, kth)`: the result is a permutation of the
+    indices; the entry at position `kth` is in its sorted place: no earlier entry is larger, no
+    later entry is smaller.  (Trusted; the k-nearest theorems assume nothing else about `argpart`.) -/
+def ArgPartSpec (argpart : List Int → Nat → List Nat) : Prop :=
+  ∀ (d : List Int) (kth : Nat), kth < d.length →
+    (argpart d kth).Perm (List.range d.length) ∧
+    ∀ p, (argpart d kth)[kth]? = some p →
+      (∀ i x, i < kth → (argpart d kth)[i]? = some x → d.getD x 0 ≤ d.getD p 0) ∧
+      (∀ j y, kth < j → (argpart d kth)[j]? = some y → d.getD p 0 ≤ d.getD y 0)
+
+/-- `(agents[i], dists[i])` (either lookup may raise `IndexError`) -/
+def knnPick (s : ESpace) (d : List Int) (i : Nat) : Option (Aid × Int) :=
+  match s.active[i]?, d[i]? with
+  | some a, some x => some (a, x)
+  | _, _ => none
+
 /-- `get_k_nearest_agents(point, k)` (after repair S18: partition at `k-1`) -/
 def kNearest (argpart : List Int → Nat → List Nat) (s : ESpace) (pt : Pos) (k : Nat) :
     Except Err (List (Aid × Int)) :=
@@ -315,9 +331,7 @@ def kNearest (argpart : List Int → Nat → List Nat) (s : ESpace) (pt : Pos) (
   else if d.length < k then .error .value
   else
     let idx := (argpart d (k - 1)).take k
-    match collect (idx.map (fun i => match s.active[i]?, d[i]? with
-                                    | some a, some x => some (a, x)
-                                    | _, _ => none)) with
+    match collect (idx.map (knnPick s d)) with
     | none => .error .index
     | some res => .ok res
 
